@@ -3,6 +3,7 @@ import Anything.Lemmas.C06Eval
 import Anything.Lemmas.C06Shift
 import Anything.Lemmas.C06Lex
 import Anything.Lemmas.C06Root
+import Anything.Generated.Knobs
 /-!
 # C06 — operator precedence, associativity and grouping are respected
 
@@ -329,5 +330,15 @@ example :
   evaluator skips (`has_children`), answering `unexpected`; the specification answers an arity
   error — both errors, so `C06_query` covers it.
 -/
+
+
+/-- **C06 (the operator table of the source is the model's).** The table extracted from
+`grammar.rs::op` on every run — token, priority, node kind, "right operand is a unit" —
+is exactly `Grammar.opInfo`, the table all theorems above are about: `^` and `**` (10)
+above `*` `/` (3) above `+` `-` (2) above `to` (1). -/
+theorem C06_op_table (k : Syntax) :
+    Anything.Grammar.opInfo k =
+      (Anything.Generated.Knobs.opTable.find? (fun r => r.1 == k)).map (fun r => r.2) := by
+  cases k <;> rfl
 
 end Anything.Props.C06
